@@ -179,3 +179,202 @@ class Facts(object):
         out = dict(merged or {})
         out.update(own)
         return out
+
+
+def inline_return(index, f, call):
+    """
+    the expression `call` denotes when its callee is a small function of the package whose body is a single
+    `return <expr>` (plus a docstring): <expr> with the parameters replaced by the arguments; else None.
+    """
+    import copy
+
+    if not isinstance(call, ast.Call):
+        return None
+    h = index.funcs.get(index.callee(f.mod, call, f) or "")
+    if h is None:
+        return None
+    body = [st for st in h.node.body if not (isinstance(st, ast.Expr) and isinstance(st.value, ast.Constant))]
+    if len(body) != 1 or not isinstance(body[0], ast.Return) or body[0].value is None:
+        return None
+    bound = {}
+    for i, a in enumerate(call.args):
+        if isinstance(a, ast.Starred) or i >= len(h.params):
+            return None
+        bound[h.params[i]] = a
+    for k in call.keywords:
+        if k.arg is None:
+            return None
+        bound[k.arg] = k.value
+    # parameters not supplied must have defaults: use them
+    a_ = h.node.args
+    pos = a_.posonlyargs + a_.args
+    for prm, d in zip(pos[len(pos) - len(a_.defaults):], a_.defaults):
+        bound.setdefault(prm.arg, d)
+    for prm, d in zip(a_.kwonlyargs, a_.kw_defaults):
+        if d is not None:
+            bound.setdefault(prm.arg, d)
+    if any(p not in bound for p in h.params):
+        return None
+
+    class Sub(ast.NodeTransformer):
+        def visit_Name(self, x):
+            if x.id in bound and isinstance(x.ctx, ast.Load):
+                return ast.copy_location(copy.deepcopy(bound[x.id]), x)
+            return x
+
+    return Sub().visit(copy.deepcopy(body[0].value))
+
+
+def import_time_calls(index, graph, h):
+    """
+    [(Mod, Call)] — the module-level direct calls of top-level function h — when those are its ONLY references in
+    the non-test package (no function mentions it): such a function runs at import, like the module-level
+    statements it was extracted from. None otherwise (or when it is never called at all).
+    """
+    if h.outer is not None:
+        return None
+    for (a, b), nodes in graph.sites.items():
+        if b == h.qual and a != h.qual:
+            caller = index.funcs.get(a)
+            if caller is None or not caller.mod.is_test:
+                return None
+    out = []
+    for name in index.nontest_modules():
+        m = index.modules[name]
+        for n in ast.walk(m.tree):
+            if not isinstance(n, (ast.Name, ast.Attribute)) or not isinstance(getattr(n, "ctx", None), ast.Load):
+                continue
+            if isinstance(n, ast.Name) and n.id != h.node.name:
+                continue
+            if isinstance(n, ast.Attribute) and n.attr != h.node.name:
+                continue
+            inside = m.parents.get(n)
+            while inside is not None and not isinstance(inside, (ast.FunctionDef, ast.AsyncFunctionDef, ast.Lambda, ast.ClassDef)):
+                inside = m.parents.get(inside)
+            if inside is not None:
+                continue  # references from functions are in graph.sites; class bodies do not call
+            if index.resolve(m, n, None) != h.qual:
+                continue
+            par = m.parents.get(n)
+            if isinstance(par, ast.Call) and par.func is n:
+                out.append((m, par))
+            elif isinstance(par, (ast.List, ast.Tuple)) and isinstance(m.parents.get(par), ast.Assign):
+                continue  # __all__ = [...] holds strings, not names; a name in a list is a value: not a call
+            else:
+                return None
+    return out or None
+
+
+def specialise(h, call):
+    """
+    Partial evaluation of `call` to function h for arguments that are constants (absent ones take their constant
+    defaults): the straight-line list of statements the call executes, with parameters and single-assignment
+    locals substituted, `if` tests on constants (`x is None`, `not x`, `x`) decided. None when the body does
+    something else (loops, tests on non-constants, ...).
+    """
+    import copy
+
+    a = h.node.args
+    if a.vararg is not None or a.kwarg is not None:
+        return None
+    pos = a.posonlyargs + a.args
+    env = {}
+    for i, arg in enumerate(call.args):
+        if isinstance(arg, ast.Starred) or i >= len(pos):
+            return None
+        env[pos[i].arg] = arg
+    for k in call.keywords:
+        if k.arg is None:
+            return None
+        env[k.arg] = k.value
+    for prm, d in zip(pos[len(pos) - len(a.defaults):], a.defaults):
+        env.setdefault(prm.arg, d)
+    for prm, d in zip(a.kwonlyargs, a.kw_defaults):
+        if d is not None:
+            env.setdefault(prm.arg, d)
+    if any(p.arg not in env for p in pos + a.kwonlyargs):
+        return None
+
+    def sub(e):
+        class Sub(ast.NodeTransformer):
+            def visit_Name(self, x):
+                if x.id in env and isinstance(x.ctx, ast.Load):
+                    return ast.copy_location(copy.deepcopy(env[x.id]), x)
+                return x
+
+            def visit_IfExp(self, x):
+                x = self.generic_visit(x)
+                t = truth(x.test)
+                if t is None:
+                    return x
+                return x.body if t else x.orelse
+
+        return Sub().visit(copy.deepcopy(e))
+
+    def truth(t):
+        """True/False when the (substituted) test is decided by constants, else None"""
+        if isinstance(t, ast.Constant):
+            return bool(t.value)
+        if isinstance(t, ast.UnaryOp) and isinstance(t.op, ast.Not):
+            v = truth(t.operand)
+            return None if v is None else not v
+        if (
+            isinstance(t, ast.Compare)
+            and len(t.ops) == 1
+            and isinstance(t.ops[0], (ast.Is, ast.IsNot))
+            and isinstance(t.comparators[0], ast.Constant)
+            and t.comparators[0].value is None
+        ):
+            if isinstance(t.left, ast.Constant):
+                r = t.left.value is None
+                return r if isinstance(t.ops[0], ast.Is) else not r
+            if isinstance(t.left, (ast.Dict, ast.List, ast.Tuple, ast.Set, ast.JoinedStr)):
+                return isinstance(t.ops[0], ast.IsNot)
+        return None
+
+    out = []
+
+    def run(stmts):
+        for s in stmts:
+            if isinstance(s, ast.Expr) and isinstance(s.value, ast.Constant) or isinstance(s, ast.Pass):
+                continue
+            if isinstance(s, ast.Return):
+                if s.value is not None:
+                    out.append(ast.copy_location(ast.Expr(value=sub(s.value)), s))
+                return False
+            if isinstance(s, ast.If):
+                t = truth(sub(s.test))
+                if t is None:
+                    return None
+                r = run(s.body if t else s.orelse)
+                if r is not True:
+                    return r
+                continue
+            if isinstance(s, ast.Assign) and len(s.targets) == 1 and isinstance(s.targets[0], ast.Name):
+                env[s.targets[0].id] = sub(s.value)
+                continue
+            if isinstance(s, (ast.Expr, ast.Assign, ast.AugAssign)):
+                new = copy.deepcopy(s)
+                for fld in ("value", "target"):
+                    if hasattr(new, fld):
+                        setattr(new, fld, sub(getattr(new, fld)))
+                if isinstance(new, ast.Assign):
+                    new.targets = [sub_store(t) for t in new.targets]
+                out.append(new)
+                continue
+            return None
+        return True
+
+    def sub_store(t):
+        """x[k] = v / x.a = v with x a substituted name: rewrite the receiver"""
+        t = copy.deepcopy(t)
+        if isinstance(t, (ast.Subscript, ast.Attribute)):
+            t.value = sub(t.value)
+            if isinstance(t, ast.Subscript):
+                t.slice = sub(t.slice)
+        return t
+
+    r = run(h.node.body)
+    if r is None:
+        return None
+    return out
